@@ -127,6 +127,7 @@ uint64_t evseq = 0;
 std::map<std::string, std::string> hosts;
 std::set<std::pair<uint32_t, int>> blackholes;
 uint64_t resolve_delay = 0, refuse_delay = 0;
+std::map<std::pair<uint32_t, int>, uint64_t> connect_delays; // per destination SYN-ACK delay (port 0 = any port of that address)
 uint16_t next_port = 40000;
 struct UdpFlight { sockaddr_in src, dst; std::string data; int from_fd; uint32_t from_gen; bool counted; };
 std::vector<UdpFlight> udp_flights;
@@ -764,6 +765,7 @@ void net_reset()
   while (!evq.empty()) evq.pop();
   hosts.clear();
   blackholes.clear();
+  connect_delays.clear();
   udp_flights.clear();
   udp_log.clear();
   ncfg = sim::net::NetConfig();
@@ -786,6 +788,12 @@ NetConfig& config() { return ncfg; }
 void add_host(const char* name, const char* ip) { hosts[name] = ip; }
 void set_resolve_delay(uint64_t ns) { resolve_delay = ns; }
 void set_refuse_delay(uint64_t ns) { refuse_delay = ns; }
+void set_connect_delay(const char* ip, int port, uint64_t ns)
+{
+  in_addr a;
+  inet_pton(AF_INET, ip, &a);
+  connect_delays[{a.s_addr, port}] = ns;
+}
 void set_blackhole(const char* ip, int port, bool onoff)
 {
   in_addr a;
@@ -1164,7 +1172,8 @@ int connect(int fd, const sockaddr* a, socklen_t l)
   f->ts = T_SYN_SENT;
   bool bh = blackholes.count({in->sin_addr.s_addr, (int)ntohs(in->sin_port)}) != 0;
   if (bh) count("net.blackholed", 1);
-  bool immediate = !bh && ncfg.connect_immediate_permille && raw_draw(sim::F, 1000) >= 1000 - (uint64_t)ncfg.connect_immediate_permille;
+  bool hasDelay = connect_delays.count({in->sin_addr.s_addr, (int)ntohs(in->sin_port)}) || connect_delays.count({in->sin_addr.s_addr, 0});
+  bool immediate = !bh && !hasDelay && ncfg.connect_immediate_permille && raw_draw(sim::F, 1000) >= 1000 - (uint64_t)ncfg.connect_immediate_permille;
   if (immediate)
   {
     count("net.connect_immediate", 1);
@@ -1178,6 +1187,11 @@ int connect(int fd, const sockaddr* a, socklen_t l)
   if (!bh)
   {
     uint64_t d = ncfg.connect_delay_ns + (ncfg.jitter_ns ? raw_draw(sim::F, ncfg.jitter_ns + 1) : 0);
+    {
+      auto it = connect_delays.find({in->sin_addr.s_addr, (int)ntohs(in->sin_port)});
+      if (it == connect_delays.end()) it = connect_delays.find({in->sin_addr.s_addr, 0});
+      if (it != connect_delays.end()) d = it->second;
+    }
     push_ev(g_now + d, 1, fd, (int)fdgen[fd - FDBASE]);
   }
   if (f->nonblock) { errno = EINPROGRESS; return -1; }
